@@ -25,6 +25,7 @@ type State struct {
 	trace     []string // human-readable path trace (block labels / notable events)
 	pinned    []string // channel terms whose closedness is owned by this thread
 	published map[string]bool
+	dirty  map[string]bool // heap arrays written at a reference that is not an object allocated on this path
 	cells  map[string]Val // values stored in cells of objects allocated on this path (arr@ref -> value)
 	dead      bool
 }
@@ -43,6 +44,10 @@ func (st *State) clone() *State {
 	n.published = make(map[string]bool, len(st.published))
 	for k, v := range st.published {
 		n.published[k] = v
+	}
+	n.dirty = make(map[string]bool, len(st.dirty))
+	for k, v := range st.dirty {
+		n.dirty[k] = v
 	}
 	n.cells = make(map[string]Val, len(st.cells))
 	for k, v := range st.cells {
@@ -129,6 +134,12 @@ func (st *State) forget(name, ref string) {
 }
 
 func (st *State) write(name, elemSort, ref, val string) {
+	if !strings.HasPrefix(ref, "(- ") && !strings.HasPrefix(ref, "(aidx (- ") {
+		if st.dirty == nil {
+			st.dirty = map[string]bool{}
+		}
+		st.dirty[name] = true
+	}
 	st.forget(name, ref)
 	old := st.arr(name, elemSort)
 	n := st.fresh(name, arraySort(elemSort))
@@ -137,6 +148,10 @@ func (st *State) write(name, elemSort, ref, val string) {
 }
 
 func (st *State) havoc(name string) {
+	if st.dirty == nil {
+		st.dirty = map[string]bool{}
+	}
+	st.dirty[name] = true
 	st.forget(name, "")
 	es, ok := st.ex.heapSort[name]
 	if !ok {
@@ -230,6 +245,8 @@ type Frame struct {
 	results    Val
 	loopEntry  map[int]map[string]string // loop ordinal -> heap snapshot at loop entry (for old-at-entry)
 	loopEntryCnt map[int]map[string]string
+	loopEntryNames map[int]map[string]Val
+	nameAlias map[string]ssa.Value
 	parent     *Frame
 	lockSnap map[string]string
 	pseudo   bool
